@@ -292,6 +292,9 @@ class SymSim(mosaik_api_v3.Simulator):
         self.finalized += 1
         log = getattr(self, '_log', None)
         (log if log is not None else CTX['log']).append(('finalize', getattr(self, 'sid', None)))
+        if CTX.get('fin_fault') is not None and CTX['fin_fault'] == getattr(self, 'sid', None):
+            CTX['fin_fired'] = True
+            raise RuntimeError('boom (finalize() of the simulator failed)')
 
 
 # ---------------------------------------------------------------------------
